@@ -19,6 +19,10 @@ THEOREMS = [
     ("EG.props.C04", "C04_attempt_uses_current_list"),
     ("EG.props.C04", "C04_watch_last_report"),
     ("EG.props.C04", "C04_checker_accepts_balanced"),
+    ("EG.props.C04", "C04_checker_sound_segment"),
+    ("EG.props.C04", "C04_checker_sound_history"),
+    ("EG.props.C04", "C04_checker_sound_concurrent"),
+    ("EG.props.C04", "C04_checker_sound_list"),
 ]
 _FILES = ["harness/proxy/zz_verif_c04_test.go", "harness/proxy/zz_verif_c04_watch_test.go"]
 HARNESSES = [
@@ -124,8 +128,17 @@ def encode(c):
         return Rec(c_n=Z(i["n"]), c_g=Z(i["g"]), c_per=Z(i["per"]), c_c0=Z(i["c0"]),
                    c_counts=L([Z(x) for x in o.get("counts") or []]), c_nil=Z(o["nil"]), c_panics=Z(o["panics"]))
     if g == "swap":
+        lists = i.get("lists") or []
+        urls = []
+        for j, ws in enumerate(lists):
+            via = bool(i.get("viasvc")) and j > 0
+            us = ["http://l%ds%d.test%s" % (j, k, ":8080" if via else "") for k in range(len(ws or []))]
+            if via and not us:
+                us = list(urls[0])  # useService with no qualifying instance falls back to the static list (list 0)
+            urls.append(us)
         return Rec(w_expected=Z(i["g"] * i["per"]), w_total=Z(o["total"]), w_bad=Z(o["bad"]), w_panics=Z(o["panics"]),
-                   w_lists=Z(len(i.get("lists") or [])))
+                   w_lists=Z(len(lists)), w_urls=L([L([S(u) for u in us]) for us in urls]),
+                   w_hist=L([T(Z(h["lo"]), Z(h["hi"]), S(h["url"]), Z(h["n"])) for h in o.get("hist") or []]))
     if g == "watch":
         reports = o.get("reports") or []
         tail = []
